@@ -215,7 +215,7 @@ func cmdCheck(args []string) int {
 						c.Confirmed = true
 						validated++
 					} else {
-						fmt.Printf("ENGINE-MISMATCH harness=%s shard=%d: predicted %v, native:\n%s\n", c.Harness, c.Shard, c.Obs, c.Native)
+						fmt.Printf("ENGINE-MISMATCH harness=%s shard=%d: predicted %v (choices %v vars %v), native:\n%s\n", c.Harness, c.Shard, c.Obs, c.Choices, c.Vars, c.Native)
 						engineBad = true
 					}
 					continue
